@@ -19,11 +19,13 @@ import subprocess
 from lib import vlib
 from lib.vlib import cq_list
 from props import c04
-from props.c04 import (Ids, cq_store, op_to_coq, act_to_coq, res_class, check_complete, parse_name, fold, sha, EMPTY_STATE)
+from props.c04 import (norm2, P2_THRESHOLD, P2_LICENSE, chunk_layout, cache_key, gen_pull2, is_pull2, p2_tables, cq_st2, cq_served2,
+                       Ids, cq_store, op_to_coq, act_to_coq, res_class, check_complete, parse_name, fold, sha, EMPTY_STATE)
 
 SETUP_BUILDS = [{"name": "c04"}]
-COQ_TARGETS = ["Store/Properties_C12.v", "Store/Corr.v"]
-HEADER = c04.HEADER
+COQ_TARGETS = ["Store/Properties_C12.v", "Store/Corr.v", "Store/Pull2.v", "Store/ProofsPull2.v"]
+HEADER = c04.HEADER.replace("Store.Pull2.", "Store.Pull2 Store.ProofsPull2.")
+assert "Store.ProofsPull2" in HEADER
 
 TRACE_SET = ("%file,write,pwrite64,writev,pwritev,pwritev2,ftruncate,fallocate,copy_file_range,sendfile,splice,"
              "fchmod,fchown,fsetxattr,fremovexattr")
@@ -288,13 +290,15 @@ def proj(binp, d):
 
 
 def proj_state(binp, d):
-    return proj(binp, d)["state"]
+    return norm2(proj(binp, d)["state"])
 
 
 def run_ops_on(ctx, binp, d, ops, noapi=True):
     obs, err = ctx.run_jsonl(binp, [{"ops": c04.strip(ops), "dir": d, "noapi": noapi}], timeout=300)
     if not obs or len(obs[0]["obs"]) != len(ops):
         raise RuntimeError("harness failed on %r: %s" % ([o["op"] for o in ops], err[-800:]))
+    for o in obs[0]["obs"]:
+        o["state"] = norm2(o["state"])
     return obs[0]["obs"]
 
 
@@ -514,7 +518,10 @@ def monitor_case(c):
         # does the request spell its target as the torn file is spelled?  (C12_idempotent_redo_guarded: then the repetition must
         # restore the uninterrupted result; C12_redo_torn_exact: otherwise it cannot)
         req_names = [parse_name(o["dst"] if o["op"] == "copy" else o["name"]) for o in c.group if o["op"] in ("create", "copy", "pull")]
-        respelled = any(tuple(p.split("/")) not in req_names for p in torn_paths)
+        # (the new pull path replaces a manifest of other content by remove + create + write: the crash can also leave the name unlinked)
+        unlinked_paths = [p for p in base_m if fold(tuple(p.split("/"))) in inv and p not in {m["path"] for m in st["manifests"]}]
+        respelled = any(tuple(p.split("/")) not in req_names for p in torn_paths + unlinked_paths)
+        client2 = any(is_pull2(o) for o in c.group)
         part_records = part_record_state(rst)
         torn_rec = part_records == "torn"
         if ref_ok and not ok:
@@ -526,7 +533,8 @@ def monitor_case(c):
             want = {m["path"]: m for m in c.ref_state["manifests"]}
             if fm != want:
                 diff = sorted(set(fm) ^ set(want)) or [p for p in fm if fm[p] != want[p]]
-                out.append(({"class": "redo-differs", "op": kinds, "self_referential": selfref, "torn_manifest": torn, "respelled": respelled},
+                out.append(({"class": "redo-differs", "op": kinds, "self_referential": selfref, "torn_manifest": torn, "respelled": respelled,
+                             "unlinked": bool(unlinked_paths), "client2": client2},
                             "repeating %s after a crash at prefix %d and restart leaves other manifests than the uninterrupted run: %s" % (kinds, i, diff[:3]), i))
             else:
                 fb = {b["name"]: b for b in last["state"]["blobs"]}
@@ -545,6 +553,8 @@ def monitor_case(c):
 
 def render_case(fx, c):
     """-> list of (obligation, coq bool term)"""
+    if any(is_pull2(o) for o in c.group):
+        return render_case2(fx, c)
     ids = Ids()
     # the store before the operation, as a history evaluated by the model
     before = EMPTY_STATE
@@ -586,6 +596,83 @@ def render_case(fx, c):
             steps.append("(MkStep %s %s %s)" % (act_to_coq(ids, fx, op, before, o["state"]), res_class(op, o), cq_store(ids, o["state"])))
             before = o["state"]
         items.append(("chk_redo", "chk_steps (size_tbl TBL) %s %s" % (rc, cq_list(steps, "step"))))
+    tbl = ids.tbl()
+    return [(ob, t.replace("TBL", tbl)) for ob, t in items]
+
+
+# ----------------------------------------------------------------------------------------------- the new pull path (client2)
+
+def gen_pull2_case(rng, fx):
+    """(pre, group, followups): a store with a model made by the old code (sharing its model layer with what is pulled,
+    or not), maybe an earlier pull of the same manifest that failed at some chunk (scratch files and chunk records
+    stay), maybe a manifest that cannot be read (start-up then skips pruning); the pull to interrupt; then the user
+    works on the result"""
+    k = rng.choice(["g0", "g1", "gt"])
+    model = fx.data[rng.choice(["g0", "g1", "gt"])]
+    bodies = [(0, model), (7, P2_LICENSE + rng.choice([b"A", b"BB"]))]
+    if rng.random() < 0.7:
+        bodies.append((4, rng.choice(c04.SYSTEMS).encode()))
+    cfg = rng.choice(c04.CONFIGS)
+    layouts = {sha(b): chunk_layout(rng, b) for _, b in bodies + [(8, cfg)] if len(b) >= P2_THRESHOLD}
+    b0 = fx.data[k]
+    d0 = "sha256:" + sha(b0)
+    old = rng.choice(["example.com/ns/old:t", "old", "example.com/ns/m:t"])
+    pre = [{"op": "blob", "digest": d0, "data": b0.hex(), "_fx": k},
+           {"op": "create", "name": old, "files": {"model.gguf": d0}, "_fx": k, "system": rng.choice(c04.SYSTEMS)}]
+    target = rng.choice(["example.com/ns/m:t", "example.com/ns/m:t", "example.com/NS/M:t", "example.com/ns/m:v2"])
+    r = rng.random()
+    if r < 0.45:
+        # an earlier attempt that failed at one chunk of a chunked layer (or at a small layer fetched in one piece)
+        h, b, rs = rng.choice([(sha(b), b, layouts.get(sha(b), [[0, len(b) - 1]])) for _, b in bodies])
+        a = rng.choice(rs)[0]
+        pre.append(gen_pull2(rng, fx, target, bodies, cfg, layouts, faults={"sha256:%s@%d" % (h, a): rng.choice(["404", "corrupt"])}))
+    elif r < 0.6:
+        # the same manifest is there already under a sibling tag (every layer cached), pulled by the new code
+        pre.append(gen_pull2(rng, fx, "example.com/ns/m:sib", bodies, cfg, layouts))
+    if rng.random() < 0.3:
+        pre.append({"op": "corrupt", "path": "/".join(parse_name(old))})
+    group = [gen_pull2(rng, fx, target, bodies, cfg, layouts)]
+    tn = "%s/%s/%s:%s" % parse_name(target)
+    follow = []
+    r = rng.random()
+    if r < 0.4:
+        follow.append({"op": "delete", "name": tn})
+    elif r < 0.8:
+        follow.append({"op": "create", "name": "example.com/ns/derived:t", "from": tn, "system": rng.choice(c04.SYSTEMS)})
+    return pre, group, follow
+
+
+def render_case2(fx, c):
+    """a case whose interrupted operation is a pull through the new code: Store/Pull2.v"""
+    ids = Ids()
+    emp = vlib.cq_N(ids.content(b""))
+    tab = p2_tables(c.pre + c.group)
+    op = c.group[0]
+    for st in c.states + [r["state"] for r in c.recovered] + [o["state"] for rd in c.redone for o in rd]:
+        for b in st["blobs"]:
+            ids.size.setdefault(ids.h(b["sha"]), b["size"])
+    sv = cq_served2(ids, op)
+    n = c04.cq_name(parse_name(op["name"]))
+    states = [cq_st2(ids, st, tab) for st in c.states]
+    items = [("chk_served2 (guard of the theorems)", "chk_served2 TBL %s" % sv),
+             ("good_b (the invariant the theorems assume holds in the store the pull starts from)", "good_b (size_tbl TBL) %s %s" % (sv, states[0])),
+             ("chk_pull2_crash", "chk_pull2_crash TBL %s %s %s %s %s" % (emp, states[0], n, sv, cq_list(states, "st2")))]
+    for i, rec, redo in zip(c.rec_state, c.recovered, c.redone):
+        rc = cq_st2(ids, rec["state"], tab)
+        items.append(("chk_restart2", "chk_restart2 TBL %s %s %s" % ("true" if rec["mode"] == "noprune" else "false", states[i], rc)))
+        items.append(("chk_pull2_run (the repeated pull)", "chk_pull2_run TBL %s %s %s %s %s %s" % (
+            emp, rc, n, sv, res_class(op, redo[0]), cq_st2(ids, redo[0]["state"], tab))))
+        # what the user does next, by the old handlers: the model of Ops.v from the observed store
+        try:
+            before = redo[0]["state"]
+            steps = []
+            for fo, o in zip(c.followups, redo[1:]):
+                steps.append("(MkStep %s %s %s)" % (act_to_coq(ids, fx, fo, before, o["state"]), res_class(fo, o), cq_store(ids, o["state"])))
+                before = o["state"]
+            if steps:
+                items.append(("chk_steps (follow-ups)", "chk_steps (size_tbl TBL) %s %s" % (cq_store(ids, redo[0]["state"]), cq_list(steps, "step"))))
+        except ValueError:
+            pass   # scratch files still there (the repeated pull failed): judged by the monitor only
     tbl = ids.tbl()
     return [(ob, t.replace("TBL", tbl)) for ob, t in items]
 
@@ -732,7 +819,8 @@ def gen_group(rng, fx, klass, state):
 
 def run(ctx):
     ctx.rule = ("cases = (store built by a random history of uploads/creates/copies/deletes, operation to interrupt: delete | copy | create FROM a "
-                "model with overrides | blob upload + create from files | pull from the fake registry); for each case EVERY prefix of the traced "
+                "model with overrides | blob upload + create from files | pull from the fake registry | pull through the new code path (OLLAMA_EXPERIMENT=client2: "
+                "chunked layers, scratch files, chunk records; store with an earlier failed or complete pull of the same layers)); for each case EVERY prefix of the traced "
                 "sequence of mutating file-system calls of the real operation is materialised, restarted (real server.Serve start-up) and the operation "
                 "repeated.  non-trivial = the operation has >= 3 distinct crash states; distinct = canonical JSON of (history, operation)")
     ctx.trusted = ["Coq 8.16.1 kernel + vm_compute", "hand-written model coq/Store/{Fs,Ops}.v tied to the code by this differential run only",
@@ -744,10 +832,12 @@ def run(ctx):
     ctx.assumptions = ["the registry is honest (serves bytes that hash to the digest it lists); dishonest registries are C03's subject",
                        "crash = death of the server process (SIGKILL) between two system calls; a torn single write() is not modelled",
                        "a crash during the start-up sequence itself is not enumerated"]
-    ctx.proof_stage(["Store"], "Store/Properties_C12.v", extra_targets=["Store/Corr.v"],
+    ctx.proof_stage(["Store"], "Store/Properties_C12.v", extra_targets=["Store/Corr.v", "Store/Pull2.v", "Store/ProofsPull2.v"],
                     expect_theorems=["C12_crash_sound", "C12_reachable_inv", "C12_idempotent_redo_partial", "C12_idempotent_redo_guarded",
                                      "C12_redo_torn_exact", "C12_redo_upload_create", "C12_idempotent_redo_refuted",
-                                     "C12_crash_sound_noprune", "C12_idempotent_redo_noprune"])
+                                     "C12_crash_sound_noprune", "C12_idempotent_redo_noprune",
+                                     "C12_pull2_crash_sound", "C12_pull2_commit_before_link", "C12_pull2_redo",
+                                     "C12_pull2_redo_same_refuted", "C12_pull2_redo_same_partial"])
     if not ctx.quick():
         ctx.coqchk(["V.Store.Properties_C12"])
     binp = ctx.go_build("c04")
@@ -763,7 +853,10 @@ def run(ctx):
     plan += ["pull"] * (3 if ctx.quick() else 40)
     if not ctx.quick():
         plan += ["pull-big"] * 1   # a layer of two download parts (> 100 MB, all-zero body): monitor only
-    fams = {i: gen_family(rng, fx) for i, k in enumerate(plan) if k == "family"}
+    if os.environ.get("C12_PLAN"):   # (development: only cases of one class)
+        plan = []
+    plan += ["pull2"] * (4 if ctx.quick() else 60)   # the new pull path (chunked downloads, scratch files, chunk records)
+    fams = {i: (gen_family(rng, fx) if k == "family" else gen_pull2_case(rng, fx)) for i, k in enumerate(plan) if k in ("family", "pull2")}
     pres = [fams[i][0] if i in fams else gen_pre(rng, fx) for i, _ in enumerate(plan)]
     pobs, err = c04.run_histories(ctx, binp, pres, noapi=True)
     if pobs is None:
@@ -904,7 +997,10 @@ MANIFEST = {
                 "materialising every prefix, running the real start-up and the real operation again, and comparing all stages with the model.",
         "design_ref": "DESIGN.md section 5, C12",
     },
-    "level_note": "Model = repaired code (fixes/C04-*.patch). C12_crash_sound is full strength over the model (any reachable store, any operation meeting "
+    "level_note": "New pull path (client2): separate model Store/Pull2.v (scratch files, chunk records, commit, Link) with C12_pull2_crash_sound / "
+                  "_commit_before_link / _redo proved for every effect prefix and both restarts under the decidable invariant good_b (evaluated on every case) and "
+                  "guard2 (honest registry); 'same listing as the uninterrupted run' refuted and proved in part (known finding C12-pull2-relink-respelled); one stream "
+                  "(MaxStreams=1), crashes inside the start-up prune not enumerated. Model = repaired code (fixes/C04-*.patch). C12_crash_sound is full strength over the model (any reachable store, any operation meeting "
                   "its guard, any effect prefix). The redo clause is proved for every crash point (torn manifests included) of delete / copy / create FROM / create from files (upload repeated) / "
                   "pull under the decidable redo_guard, whose torn-manifest part is exact (C12_redo_torn_exact); the unguarded statement is refuted on the model (manifests are written in "
                   "place; known findings C12-torn-manifest-*, C12-self-referential-create-not-idempotent). Trusted: Coq kernel/vm_compute; strace + the python "
